@@ -15,7 +15,7 @@ Transforms(s) ==
   \cup {<<"scale", s, k>> : k \in Scales} \cup {<<"scaleu", s, k>> : k \in {2, -1}}
   \cup {<<"reflect", s, a, o>> : a \in {"X", "Y", "Z"}, o \in {0, 1}} \cup {<<"reflectxy", s>>}
   \cup {<<"rot", s, a, q, c>> : a \in {"X", "Y", "Z"}, q \in 1..3, c \in {<<0, 0, 0>>, <<1, 0, -1>>}}
-  \cup {<<"repeatx", s, r, o>> : r \in {1, 2}, o \in {0, 1}}
+  \cup {<<"repeatx", s, r, o>> : r \in {1, 2}, o \in {0, 1}} \cup {<<"repeatx", s, 1, 3>>, <<"repeatx", s, 1, -4>>}   \* windows beyond one period from the origin
   \cup {<<"extrudez", s, -1, 2>>}
 Revolved == {<<"revolvey", <<"circle", <<2, 0>>, 1>>, 0>>, <<"revolvey", <<"rect", <<1, -1>>, <<3, 1>>>>, 0>>,
              <<"revolvey", <<"circle", <<3, 1>>, 2>>, 0>>, <<"revolvey", <<"move", <<"rect", <<0, 0>>, <<2, 2>>>>, <<1, -1, 0>>>>, 0>>,
